@@ -150,6 +150,11 @@ def check(ctx):
         uncond, cond = set(), set()
 
         helper_stack = []
+        # names the pipeline object goes by in this method (receivers of add_transform); a call that hands one of them to a
+        # function that cannot be resolved may install transforms this scan does not see
+        pipe_names = {k.func.value.id for k in ast.walk(f.node) if isinstance(k, ast.Call) and isinstance(k.func, ast.Attribute)
+                      and k.func.attr == "add_transform" and isinstance(k.func.value, ast.Name)}
+        opaque = []
 
         def scan(body, conditional):
             for st in body:
@@ -198,6 +203,8 @@ def check(ctx):
                             helper_stack.append(g.node)
                             scan(g.node.body, conditional)
                             helper_stack.pop()
+                        elif g is None and any(isinstance(a_, ast.Name) and a_.id in pipe_names for a_ in n.args):
+                            opaque.append(norm(n.func))
 
         scan(f.node.body, False)
         for t in sorted(required):
@@ -208,6 +215,8 @@ def check(ctx):
                 rep.refuted("R-C33-pipeline", rel, f"{cname}.{meth}", f"add_transform({t}, …) [conditional]",
                             f"{cname} installs `{t}` only under a condition, where the confirmed pipeline installed it on every path: for the other "
                             "configurations unsupported circuits reach the simulator unchecked", line=f.node.lineno)
+            elif opaque:
+                rep.unknown("R-C33-pipeline", where, f"not added here, but the pipeline is handed to `{opaque[0]}`, which is not followed")
             else:
                 rep.refuted("R-C33-pipeline", rel, f"{cname}.{meth}", f"add_transform({t}, …)",
                             f"{cname} no longer installs `{t}` in its preprocessing pipeline: circuits that this step rejects (or brings into the "
